@@ -79,6 +79,8 @@ HARMLESS = [
     ('C06', 'sc3/base/netaddr.py', "            acc_size += s + 4  # Element size bytes.\n            clump.append(e)", "            clump.append(e)\n            acc_size += s + 4  # Element size bytes.", 'clump append before the size update (independent statements)'),
     ('C17', 'sc3/synth/buffer.py', "        msg = ['/b_free', self._bufnum, fn.value(completion_msg, self)]", "        completion = fn.value(completion_msg, self)\n        msg = ['/b_free', self._bufnum, completion]", 'local for the completion message in Buffer.free'),
     ('C17', 'sc3/synth/server.py', "            for i in range(block.address, block.address + block.size):\n                bundle.append(['/b_free', i])", "            first = block.address\n            for i in range(first, first + block.size):\n                bundle.append(['/b_free', i])", 'local for the first number of a block in _free_all_buffers'),
+    ('C04', 'sc3/synth/synthdef.py', "        names = [x.name for x in params]\n        names = names[skip_args:]\n        values = self._get_valid_arg_values(params)\n        values = values[skip_args:]", "        used = params[skip_args:]\n        names = [x.name for x in used]\n        values = self._get_valid_arg_values(used)", 'parameters sliced once before names and values are taken'),
+    ('C04', 'sc3/synth/synthdef.py', "            overridden = lag in rate_names", "            overridden = lag in ('ar', 'kr', 'ir', 'tr')", 'rate names spelled out in the override test'),
 ]
 
 BREAKING = [
@@ -138,6 +140,9 @@ BREAKING = [
     ('C06', 'sc3/base/netaddr.py', "                res.append(clump)\n                clump = []\n                acc_size = 16  # Bundle prefix + Timetag bytes.", "                res.append(clump)\n                clump = []", 'clump size not reset when a new clump is opened'),
     ('C17', 'sc3/synth/buffer.py', "        msg = ['/b_free', self._bufnum, fn.value(completion_msg, self)]\n        self._bufnum = self._frames = self._channels = None", "        self._bufnum = self._frames = self._channels = None\n        msg = ['/b_free', self._bufnum, fn.value(completion_msg, self)]", 'Buffer.free builds its message after the wipe'),
     ('C17', 'sc3/synth/server.py', "            for i in range(block.address, block.address + block.size):", "            for i in range(block.address, block.address + block.size - 1):", 'last number of every block never freed on the server'),
+    ('C04', 'sc3/synth/synthdef.py', "        annotations = annotations[skip_args:]\n", "", 'annotations not shifted past the prepended arguments'),
+    ('C04', 'sc3/synth/synthdef.py', "            if lag == 'ir' or annot == 'ir' and not overridden:", "            if lag == 'ir' or annot == 'ir':", 'ir annotation wins over an overriding rates entry'),
+    ('C04', 'sc3/synth/synthdef.py', "        rates = [x if x is not None else 0.0 for x in rates]", "        rates = [x if x is not None else 0.5 for x in rates]", 'None in rates becomes a lag of 0.5'),
 ]
 
 
